@@ -150,3 +150,67 @@ PROPS["C06"] = {
     "assumptions": ["floats as reals"],
     "outside": ["float continuity beyond rounding"],
 }
+
+
+# ------------------------------------------------------------------------------- stepper control facts (R-round)
+def _rs():
+    import sys
+    if VERIF not in sys.path:
+        sys.path.insert(0, VERIF)
+    from rsym import units_step as US
+    return US
+
+
+_EXPL_Q = [("RK4", False), ("RK23", False), ("DOPRI5", False), ("RK23", True)]
+_EXPL_T = [(m, b) for m in ("RK4", "RK23", "DOPRI5", "DOP853") for b in (False, True)]
+
+
+def _step_units(kind, tier):
+    US = _rs()
+    combos = _EXPL_Q if tier == "quick" else _EXPL_T
+    units = []
+    for m, b in combos:
+        if kind == "c18":
+            units.append(US.c18_counters(m, b))
+        elif kind == "c03":
+            units.append(US.c03_times(m, b))
+            units.append(US.c03_prefix(m, b))
+            if tier == "thorough" and m != "RK4":
+                units.append(US.c03_times(m, b, with_max_step=False))
+                units.append(US.c03_prefix(m, b, with_first_step=False))
+        elif kind == "c19":
+            units.append(US.c19_protocol(m, b))
+        elif kind == "c11":
+            units.append(US.c11_budget(m, b))
+    return units
+
+
+_ST_FILES = ["src/methods/rk4.rs", "src/methods/rk23.rs", "src/methods/dopri5.rs", "src/methods/dop853.rs", "src/methods/mod.rs"]
+_ST_EXPL = ("The real solve() is executed symbolically from the source (own interpreter for the Rust subset): its prefix along all paths, "
+            "and ONE main-loop iteration from an ARBITRARY loop-head state constrained only by the stated invariant (inductive step, so the "
+            "facts hold for every iteration, not the first k). Time variables are z3 reals with one relative rounding error (2^-53) per "
+            "float operation plus monotonicity of rounding; right-hand-side data are free; counters are symbolic; the callback returns a "
+            "nondeterministic flag. Every feasible path is enumerated (z3 prunes), every fact is a z3 query `path & !fact` = unsat.")
+_ST_ASSUME = ["binary64 modelled as reals with relative error 2^-53 per operation (normal range; no NaN/inf/overflow/underflow: those are engine K's)",
+              "powf modelled by its contract (result >= 0; base >1/<1 and exponent sign bound it by 1)",
+              "loop-head states with x == xend exactly and last == false (needs |h| < ~100 ulp(x)) are outside the inductive argument",
+              "first_step >= 16 ulp of the span ends; first_step <= max_step (C11's precondition)"]
+
+PROPS["C18"].update({"r": {"quick": _step_units("c18", "quick"), "thorough": _step_units("c18", "thorough")},
+                     "k": {"quick": [], "thorough": []}, "level": "other",
+                     "explanation": _ST_EXPL + " C18: on every path the advance of evals.ode / evals.jac / steps.accepted equals the number of right-hand-side calls / Jacobian calls / callbacks made on that path; steps.total advances at least as much as accepted.",
+                     "assumptions": _ST_ASSUME, "files": _ST_FILES,
+                     "outside": ["Radau/BDF (not yet interpreted by R)", "zero-length run counters (trivial constant zeros in solve_ivp)"]})
+PROPS["C03"] = {"level": "other", "r": {"quick": _step_units("c03", "quick"), "thorough": _step_units("c03", "thorough")},
+                "files": _ST_FILES, "functions": ["RK4/RK23/DOPRI5/DOP853::solve (prefix + main loop)"],
+                "explanation": _ST_EXPL + " C03: every RHS call time lies in [x0,xend] (+-4ulp); callback xold is the previous x; accepted steps move toward xend; Success only at xend; UserInterrupt iff Interrupt; the loop-head invariant (x between x0 and xend, h toward xend, |h|<=max_step, last==false) is established by the prefix and preserved.",
+                "assumptions": _ST_ASSUME, "bounds": "n=1; all feasible paths through one iteration from an arbitrary loop-head state",
+                "outside": ["Radau, BDF", "DefaultSolOut layer (see C05/C12)", "NaN/inf right-hand sides (C04, engine K)"]}
+PROPS["C19"] = {"level": "other", "r": {"quick": _step_units("c19", "quick"), "thorough": _step_units("c19", "thorough")},
+                "files": _ST_FILES, "functions": ["RK4/RK23/DOPRI5/DOP853::solve with an adversarial SolOut"],
+                "explanation": _ST_EXPL + " C19: exactly one callback per accepted step with xold = previous x; Interrupt => UserInterrupt and no further evaluation; ModifiedSolution => the derivative is re-evaluated at (x, written state) and that derivative starts the next step; Continue/XOut => the derivative carried into the next step was evaluated at the accepted (x,y).",
+                "assumptions": _ST_ASSUME, "bounds": "n=1; all feasible paths", "outside": ["Radau, BDF", "'doubling the state doubles everything' (relational)"]}
+PROPS["C11"] = {"level": "other", "r": {"quick": _step_units("c11", "quick") + _step_units("c03", "quick"), "thorough": _step_units("c11", "thorough") + _step_units("c03", "thorough")},
+                "files": _ST_FILES, "functions": ["solve() loop heads, step-size clamps, hinit"],
+                "explanation": _ST_EXPL + " C11: accepted intervals <= max_step (1% stretch only on the landing step), |h| <= max_step is part of the preserved loop-head invariant; the first trial step is first_step signed toward xend; max_steps is read once per iteration against the total step count and, once exhausted, the run ends with NeedLargerNMax without further evaluations.",
+                "assumptions": _ST_ASSUME, "bounds": "n=1; all feasible paths", "outside": ["bit-identical prefix of the unbudgeted run (relational)", "Radau, BDF"]}
